@@ -468,12 +468,23 @@ class Gen:
             data = bytes([r.choice([0x40, 0x50, 0x62, 0x70, 0xb0]), r.choice([0, 1, 3]), 0x80, 0, 1][:2 + r.choice([0, 1, 3])])
         else:
             data = bytes([0x90, 2, 0x60, 0])
+        if self.bufsize and r.random() < 0.3:
+            # a violation in the header of a packet that is larger than the read buffer
+            body = bytes(r.randrange(256) for _ in range(self.bufsize * 2))
+            data = r.choice([mq.packet(0x36, mq.s16(b"t") + b"\x00\x09" + body), mq.packet(0x32, mq.s16(b"t") + b"\x00\x00" + body),
+                             mq.packet(0x34, mq.s16(b"t") + b"\x00\x00" + body)])
         self.emit("feed %s eof" % H(data))
         if not self.reader_out:
             self.emit("rs")
+        if r.random() < 0.5:
+            self.emit("backoff")
         self.link, self.parked, self.reader_out, self.doomed = "pending", False, False, False
         self.subs, self.unsubs, self.ping = [], [], None
         self.waiter = None
+        if r.random() < 0.5:
+            self.connect()
+            if self.link == "live":
+                self.emit("feed d000 block")
 
     def stall(self):
         """the broker stops sending inside a packet (or inside the payload a BigMessage.ReadAll is reading): the client may
@@ -493,6 +504,21 @@ class Gen:
             self.emit("readall")
             # the session ends here: the call cannot return while the broker stalls and no time passes
             self.closed = True
+            return
+        if self.bufsize and r.random() < 0.35:
+            # a message beyond the read buffer that the application does not read, while the broker stalls inside it: the skip at
+            # the next ReadSlices sees a deadline expiry without progress and must give the connection up
+            payload = bytes(r.randrange(256) for _ in range(self.bufsize * r.choice([2, 3])))
+            pk = mq.publish(qos, self.topic(), payload, r.choice([5, 6, 7]) if qos else 0)
+            cut = len(pk) - r.randrange(1, self.bufsize)
+            self.emit("feed %s block" % H(pk[:cut]))
+            if not self.reader_out:
+                self.emit("rs")
+            self.emit("feed tmo tmo block", "rs", "backoff")
+            self.link, self.parked, self.reader_out, self.doomed = "pending", False, False, False
+            self.subs, self.unsubs, self.ping = [], [], None
+            self.owed = False
+            self.connect()
             return
         pk = mq.publish(qos, self.topic(), self.payload(False), r.choice([5, 6, 7]) if qos else 0)
         if r.random() < 0.3:
